@@ -1,4 +1,4 @@
-"""C02 - NDJSON write/read round trip and the documented JSON mapping (generated C++).
+"""C02 - NDJSON write/read round trip and the documented JSON mapping (generated C++ and generated Python).
 
 Monitor: NDJSON lines written by the generated NDJSON writer (fed reference-encoded binary), bytes
 written by the generated binary writer when the generated NDJSON reader is fed reference NDJSON
@@ -95,6 +95,27 @@ def alt_spelling(c, t, j, v):
     return j
 
 
+def python_side(ctx, m, proto, vals, data, tag, ex):
+    """the same two oracles on the generated Python: the document it writes is the documented mapping, and it reads the documented mapping"""
+    c = m.codec
+    py = rt.PyEndpoint(m)
+    exp = dict(ex, trigger=rt.py_triggers(m, proto))
+    r = py.copy(proto.name, "bin", "ndjson", data)
+    ctx.ev(); ctx.count("bin->ndjson.py")
+    ok = judge_doc(ctx, m, proto, vals, r, "py", tag + " bin->ndjson (python)", exp, data)
+    try:
+        ref_text = ("\n".join(c.ndjson_lines(proto, m.schema(proto.name), vals)) + "\n").encode()
+    except CodecError:
+        return
+    r2 = py.copy(proto.name, "ndjson", "bin", ref_text)
+    ctx.ev(); ctx.count("ndjson->bin.py")
+    rt.judge(ctx, m, proto, vals, ref_text, r2, "py", "bin", tag + " refndjson->bin (python)", dict(ex, trigger=""))
+    if ok and r.rc == 0:
+        r3 = py.copy(proto.name, "ndjson", "ndjson", r.out)
+        ctx.ev(); ctx.count("ndjson->ndjson.py")
+        judge_doc(ctx, m, proto, vals, r3, "py", tag + " ndjson->ndjson (python)", exp, r.out)
+
+
 def run_model(ctx, key, pkg, nsets, flavors):
     m = rt.prepare_model(ctx, key, pkg, flavors)
     if m is None:
@@ -131,6 +152,7 @@ def run_model(ctx, key, pkg, nsets, flavors):
                     r4 = ep.copy(proto.name, "ndjson", "ndjson", r.out)
                     ctx.ev(); ctx.count("ndjson->ndjson." + ep.name)
                     judge_doc(ctx, m, proto, vals, r4, ep.name, tag + " ndjson->ndjson", ex, r.out)
+            python_side(ctx, m, proto, vals, data, tag, ex)
     ctx.sample({"model": key, "protocols": [p.name for p in pkg.protocols()]})
     m.close()
 
@@ -186,9 +208,13 @@ def matrix_package(quick: bool):
     AllOpt = Rec("MxAllOpt", [("label", Opt(P("string"))), ("weight", Opt(P("int32"))), ("u", U(((None, P("int32")), (None, P("string"))), True))])
     protos.append(Proto("MxAllOptional", [("plain", N("MxAllOpt")), ("maybe", Opt(N("MxAllOpt"))), ("items", S(N("MxAllOpt"))), ("vec", V(N("MxAllOpt"))),
                                           ("inUnion", U(((None, N("MxAllOpt")), (None, P("string"))))), ("m", M(P("string"), N("MxAllOpt")))]))
+    # record fields whose optionality is only visible through a named alias (of an optional, of a nullable union): omitted when null like any other
+    Aliased = Rec("MxAliased", [("id", P("int32")), ("remark", N("MxRemark")), ("nu", N("MxNullU")), ("direct", Opt(P("string"))), ("viaChain", N("MxRemark2"))])
+    protos.append(Proto("MxAliasedOptional", [("plain", N("MxAliased")), ("items", S(N("MxAliased"))), ("vec", V(N("MxAliased"))), ("step", N("MxRemark")), ("ustep", N("MxNullU"))]))
     # arrays without a declared rank: rank 0 (one element, shape []) is a legal value
     protos.append(Proto("MxDynamic", [("d", A(P("int32"), None)), ("ds", S(A(P("float64"), None))), ("dv", V(A(P("int32"), None))), ("du", U((("arr", A(P("int32"), None)), ("text", P("string"))), False, True))]))
-    return Pkg("Matrix", [Rc, Rc2, E1, F1, Gen, AllOpt, Al("MxLabel", P("string")), Al("MxCount", P("uint16"))] + protos)
+    return Pkg("Matrix", [Rc, Rc2, E1, F1, Gen, AllOpt, Al("MxLabel", P("string")), Al("MxCount", P("uint16")), Al("MxRemark", Opt(P("string"))),
+                          Al("MxNullU", U(((None, P("int32")), (None, P("string"))), True)), Al("MxRemark2", N("MxRemark")), Aliased] + protos)
 
 
 def run_matrix(ctx, quick):
@@ -216,6 +242,10 @@ def run_matrix(ctx, quick):
                 empty = [None, None, None]
                 full = [(0, "x"), (0, k), (1, "s")]
                 vals = [empty, (0, empty) if k % 2 == 0 else None, [empty, full, empty][: 1 + k % 3], [empty, full][: 1 + k % 2], (0, empty) if k % 3 else (1, "str"), [["k1", empty], ["k2", full]]]
+            if proto.name == "MxAliasedOptional":
+                nul = [k, None, None, None, None]
+                full = [k, (0, "r%d" % k), (1, "u") if k % 2 else (0, -k), (0, "d"), (0, "chain")]
+                vals = [nul if k % 2 == 0 else full, [nul, full, nul, full][: 1 + k % 4], [full, nul][: 1 + k % 2], None if k % 2 else (0, "s"), None if k % 3 == 0 else (0, 3)]
             if proto.name == "MxGenericNullable":
                 vals[0] = [[i, (None if i % 2 else (0, i * 7))] for i in range(6)]
                 vals[1] = [[i, (None if i % 3 == 1 else ((0, i) if i % 3 == 0 else (1, "s%d" % i)))] for i in range(7)]
@@ -235,6 +265,7 @@ def run_matrix(ctx, quick):
                 r3 = ep.copy(proto.name, "ndjson", "bin", r.out)
                 ctx.ev(); ctx.count("matrix.gen-ndjson->bin")
                 rt.judge(ctx, m, proto, vals, r.out, r3, ep.name, "bin", tag + " gen-ndjson->bin (round trip through generated code)", mx)
+            python_side(ctx, m, proto, vals, data, tag, {"matrix": True})
 
     pmap(one, pkg.protocols())
     ctx.sample({"matrix_protocols": len(pkg.protocols()), "unions": sum(len(p.steps) for p in pkg.protocols())})
